@@ -15,6 +15,7 @@
     * these coordinate sets are disjoint (`Compatible.lat_bi`), and the noise measure is a product (`mass_indep`).
 -/
 import Y0.Lemmas.CfProb
+import Mathlib.Logic.Relation
 import Y0.Lemmas.CfFscm
 
 namespace Y0.Fscm
@@ -94,6 +95,36 @@ theorem solve_consistency (M : Model) (hM : TopoOrder M) (u : NoisePoint) (X : N
       congr 1
       exact List.map_congr_left ih
   · rw [solve_not_mem M u _ v hv, solve_not_mem M u _ v hv]
+
+/-- two worlds that force the same values on a parent-closed set have the same solution there -/
+theorem solve_agree_closed (M : Model) (hM : TopoOrder M) (u : NoisePoint) (d₁ d₂ : Do) (S : Name → Prop)
+    (hforced : ∀ a, S a → forced d₁ a = forced d₂ a)
+    (hcl : ∀ a, S a → forced d₁ a = none → ∀ p ∈ M.pa a, S p) :
+    ∀ a, S a → solve M u d₁ a = solve M u d₂ a := by
+  intro v hSv
+  by_cases hv : v ∈ M.order
+  · revert hSv
+    refine topo_induction M hM (fun v => S v → solve M u d₁ v = solve M u d₂ v) ?_ v hv
+    intro v hv ih hSv
+    cases hf : forced d₁ v with
+    | some x => rw [solve_forced M u d₁ v x hv hf, solve_forced M u d₂ v x hv (by rw [← hforced v hSv, hf])]
+    | none =>
+      rw [solve_unforced M hM u d₁ v hv hf, solve_unforced M hM u d₂ v hv (by rw [← hforced v hSv, hf])]
+      congr 1
+      exact List.map_congr_left (fun p hp => ih p hp (hcl v hSv hf p hp))
+  · rw [solve_not_mem M u d₁ v hv, solve_not_mem M u d₂ v hv]
+
+/-- a variable that does not descend from `X` is the same random variable under `do(X = x)` -/
+theorem solve_nondescendant (M : Model) (G : MG Name) (hM : Compatible M G) (u : NoisePoint) (X : Name) (x : Nat) (y : Name)
+    (hnd : ¬ Relation.ReflTransGen (fun a b => (a, b) ∈ G.di) X y) : solve M u [(X, x)] y = solve M u [] y := by
+  apply solve_agree_closed M hM.topoOrder u [(X, x)] [] (fun v => Relation.ReflTransGen (fun a b => (a, b) ∈ G.di) v y)
+  · intro a ha
+    rw [forced_single, forced_nil, if_neg]
+    intro h
+    exact hnd (h ▸ ha)
+  · intro a ha _ p hp
+    exact Relation.ReflTransGen.head (hM.pa_sub a p hp) ha
+  · exact .refl
 
 theorem DependsOn.all {α : Type} (E : α → NoisePoint → Bool) (I : Nat → Prop) (l : List α)
     (h : ∀ a ∈ l, DependsOn (E a) I) : DependsOn (fun u => l.all fun a => E a u) I := by
